@@ -1,5 +1,6 @@
 import BytomModel.Model.KD
 import BytomModel.Model.KDCrypto
+import BytomModel.Model.HSM
 import BytomModel.Drv.Util
 /- driver mode c28: chainkd with the executable Ed25519 / HMAC-SHA512 (all values hex, `-` empty;
    paths are comma separated; a trailing `#…` word is the harness's oracle annotation):
@@ -7,7 +8,10 @@ import BytomModel.Drv.Util
    child <xprv> <sel> <0|1> → <xprv> | panic     pubchild <xpub> <sel> → <xpub> | panic
    derive <xprv> <path> → <xprv> | panic         pubderive <xpub> <path> → <xpub> | panic
    sign <xprv> <msg> → <sig>        verify <xpub> <msg> <sig> → true|false
-   ks <auth> <auth2> → ok | err-decrypt   (prediction: decrypts iff the passwords are equal) -/
+   ks <auth> <auth2> → ok | err-decrypt   (prediction: decrypts iff the passwords are equal)
+   stateful key-store histories (reference model `Model/HSM.lean`; slots and passwords are numbers):
+   reset → ok      hcreate <k> <pw> | hsign <k> <pw> | hcheck <k> <pw> | hresetpw <k> <old> <new>
+   | hdelete <k> <pw> | hreload → ok | err -/
 namespace BytomModel.Drv.C28
 open BytomModel.Drv BytomModel BytomModel.KD
 
@@ -31,9 +35,18 @@ def showO : Outcome (List Nat) → String
   | .ok b => showB b
   | .panic _ => "panic"
 
-def step (_ : Unit) (line : String) : Unit × String :=
-  let ws := (words line).filter (fun w => !w.startsWith "#")
-  let out := match ws with
+def hsmOp (ws : List String) : Option HSM.Op :=
+  match ws with
+  | ["hcreate", k, pw] => do pure (.create (← k.toNat?) (← pw.toNat?))
+  | ["hsign", k, pw] => do pure (.sign (← k.toNat?) (← pw.toNat?))
+  | ["hcheck", k, pw] => do pure (.check (← k.toNat?) (← pw.toNat?))
+  | ["hresetpw", k, o, n] => do pure (.resetpw (← k.toNat?) (← o.toNat?) (← n.toNat?))
+  | ["hdelete", k, pw] => do pure (.delete (← k.toNat?) (← pw.toNat?))
+  | ["hreload"] => some .reload
+  | _ => none
+
+def stepPure (ws : List String) : String :=
+  match ws with
     | ["root", seed] => match parseB seed with
       | some s => showB (rootXPrv prf s)
       | none => "bad-op"
@@ -60,7 +73,13 @@ def step (_ : Unit) (line : String) : Unit × String :=
       | _, _, _ => "bad-op"
     | ["ks", a, b] => if a == b then "ok" else "err-decrypt"
     | _ => "bad-op"
-  ((), out)
 
-def run (_args : List String) : IO Unit := lineLoop () step
+def step (st : HSM.State) (line : String) : HSM.State × String :=
+  let ws := (words line).filter (fun w => !w.startsWith "#")
+  if ws == ["reset"] then (HSM.empty, "ok") else
+  match hsmOp ws with
+  | some op => let r := HSM.step st op; (r.1, if r.2 then "ok" else "err")
+  | none => (st, stepPure ws)
+
+def run (_args : List String) : IO Unit := lineLoop HSM.empty step
 end BytomModel.Drv.C28
